@@ -47,7 +47,12 @@ def run(prop, tier, seed, replay=None):
             "--case-timeout", "300"]
     if replay and "case" in replay.get("replay_args", {}):
         args += ["--only-case", str(replay["replay_args"]["case"])]
-    res, rc = core.run_monitor(exe, args, build.san_env("asan"), os.path.join(chk.workdir, "out"), timeout=7200 if tier == "thorough" else 900)
+    env = build.san_env("asan")
+    if prop == "C08":
+        # a process zone with distinct standard/daylight names: strftime's own %Z variants print tzname[tm_isdst], so the
+        # tm_isdst the library hands to strftime becomes observable (the zones under test never come from TZ)
+        env["TZ"] = "XST5XDT,M3.2.0,M11.1.0"
+    res, rc = core.run_monitor(exe, args, env, os.path.join(chk.workdir, "out"), timeout=7200 if tier == "thorough" else 900)
     chk.absorb(res, replay_args=dict(monitor="fmtmon"))
     cov = dict(evaluations=res.stat(prop + ".evaluations"), distinct_nontrivial=res.stat(prop + ".distinct_nontrivial"), rule=RULES[prop],
                samples=res.samples.get(prop, [])[:5], sanitizer_reports=len(res.crashes),
